@@ -193,6 +193,17 @@ func sameBasicClass(a, b types.Type) bool {
 	return ab.Info()&types.IsString != 0 && bb.Info()&types.IsString != 0
 }
 
+// strconv.FormatBool of a symbolic boolean: "true" / "false" as guarded alternatives
+func registerFormatBool(e *Engine) {
+	e.intrinsics["strconv.FormatBool"] = func(x *Exec, fn *ssa.Function, a []Value) (Value, bool) {
+		b := a[0].(*Term)
+		if b.IsConst() {
+			return nil, false
+		}
+		return &StrVal{Alts: []StrAlt{{G: b, S: "true"}, {G: tNot(b), S: "false"}}}, true
+	}
+}
+
 func mkSliceOfIface(sl *SliceVal) Value {
 	var vs []Value
 	for i := 0; i < sl.Len; i++ {
